@@ -7,6 +7,9 @@
 use std::sync::atomic::{AtomicI64, Ordering::SeqCst};
 
 static OFFSET_NS: AtomicI64 = AtomicI64::new(0);
+/// when non-zero: the real monotonic reading (ns) at which time was frozen; while frozen the
+/// clock only moves through `advance`, so histories with time in them are fully deterministic
+static FROZEN_AT_NS: AtomicI64 = AtomicI64::new(0);
 
 #[repr(C)]
 pub struct Timespec {
@@ -34,14 +37,11 @@ pub unsafe extern "C" fn clock_gettime(clk: i32, ts: *mut Timespec) -> i32 {
         // CLOCK_MONOTONIC
         let off = OFFSET_NS.load(SeqCst);
         let t = &mut *ts;
-        let mut ns = t.tv_nsec + off % 1_000_000_000;
-        let mut s = t.tv_sec + off / 1_000_000_000;
-        if ns >= 1_000_000_000 {
-            ns -= 1_000_000_000;
-            s += 1;
-        }
-        t.tv_sec = s;
-        t.tv_nsec = ns;
+        let frozen = FROZEN_AT_NS.load(SeqCst);
+        let real = if frozen != 0 { frozen } else { t.tv_sec * 1_000_000_000 + t.tv_nsec };
+        let v = real + off;
+        t.tv_sec = v / 1_000_000_000;
+        t.tv_nsec = v % 1_000_000_000;
     }
     0
 }
@@ -53,6 +53,44 @@ pub fn enabled() -> bool {
 /// advance virtual time (never goes backwards)
 pub fn advance(d: std::time::Duration) {
     OFFSET_NS.fetch_add(d.as_nanos() as i64, SeqCst);
+}
+
+#[cfg(all(feature = "vclock", not(miri), target_os = "linux", target_arch = "x86_64"))]
+fn real_now_ns() -> i64 {
+    // raw reading without the offset: temporarily compute from the interposed function
+    let mut ts = Timespec { tv_sec: 0, tv_nsec: 0 };
+    let frozen = FROZEN_AT_NS.load(SeqCst);
+    if frozen != 0 {
+        return frozen;
+    }
+    unsafe {
+        clock_gettime(1, &mut ts);
+    }
+    ts.tv_sec * 1_000_000_000 + ts.tv_nsec - OFFSET_NS.load(SeqCst)
+}
+
+#[cfg(not(all(feature = "vclock", not(miri), target_os = "linux", target_arch = "x86_64")))]
+fn real_now_ns() -> i64 {
+    0
+}
+
+/// Freeze (true) or release (false) the virtual clock.  Frozen: `Instant::now()` only moves by
+/// `advance`.  Released: real time flows again, continuing from the frozen reading (time never
+/// goes backwards).
+pub fn set_frozen(on: bool) {
+    if !enabled() {
+        return;
+    }
+    let cur = FROZEN_AT_NS.load(SeqCst);
+    if on && cur == 0 {
+        let now = real_now_ns();
+        FROZEN_AT_NS.store(now.max(1), SeqCst);
+    } else if !on && cur != 0 {
+        FROZEN_AT_NS.store(0, SeqCst);
+        let now = real_now_ns();
+        // continue from the frozen reading: drop the real time that passed while frozen
+        OFFSET_NS.fetch_sub(now - cur, SeqCst);
+    }
 }
 
 pub fn offset_ns() -> i64 {
@@ -68,5 +106,19 @@ pub fn selftest() -> bool {
     advance(std::time::Duration::from_secs(1000));
     let b = std::time::Instant::now();
     let d = b.duration_since(a);
-    d >= std::time::Duration::from_secs(1000) && d < std::time::Duration::from_secs(1001)
+    let follows = d >= std::time::Duration::from_secs(1000) && d < std::time::Duration::from_secs(1001);
+    // frozen: two readings with real work in between are identical, advance moves exactly
+    set_frozen(true);
+    let c = std::time::Instant::now();
+    let mut x = 0u64;
+    for i in 0..200_000u64 {
+        x = x.wrapping_mul(31).wrapping_add(i);
+    }
+    std::hint::black_box(x);
+    let e = std::time::Instant::now();
+    advance(std::time::Duration::from_millis(7));
+    let f = std::time::Instant::now();
+    set_frozen(false);
+    let g = std::time::Instant::now();
+    follows && e == c && f.duration_since(e) == std::time::Duration::from_millis(7) && g >= f
 }
